@@ -248,5 +248,6 @@ impl Prop for C12 {
     }
     fn cases(tier: Tier) -> u32 { tier.pick(60_000, 1_200_000) }
     fn shards(_: Tier) -> usize { 8 }
+    fn replay_repeats() -> usize { 30 }
     fn run(case: &Case, ctx: &Ctx) -> Outcome { to_outcome(run_case(case, ctx.tier)) }
 }
